@@ -125,6 +125,17 @@ func main() {
 	if f := os.Getenv("C08_TIMING"); f != "" && os.Getenv("C08_CHILD") != "1" {
 		timingFile, _ = os.OpenFile(f, os.O_APPEND|os.O_CREATE|os.O_WRONLY, 0o644)
 	}
+	if os.Getenv("C08_FIELDS") != "" { // development aid: which field values are derived, which fields Equal ignores
+		t0 := time.Now()
+		for _, e := range catalogue() {
+			x := e.expansion(1)
+			if len(x.derived)+len(x.equalIgnores) > 0 {
+				fmt.Printf("%s: +%d values derived=%s equal-ignores=%s\n", e.name, len(x.all)-len(e.vals), shortList(x.derived), shortList(x.equalIgnores))
+			}
+		}
+		fmt.Println("expansion of all types:", time.Since(t0))
+		return
+	}
 	if os.Getenv("C08_CHILD") == "1" {
 		childMain()
 		return
@@ -141,6 +152,7 @@ func main() {
 			"corruption = one leaf over every decoder and every located header field (each of the first 64 bytes, every small LE u32/u64, every byte of JSON texts) x {0,1,2,0xff,orig+-1,2^63,2^64-1,2^20,2^31,2^32-1} (JSON: 8 bit flips + 3 bytes), allocation-driving lengths probed at 2^19, attributed to the decoder function that reads the field (traced reader calls) and confirmed once per such function above 80 MiB; " +
 			"writer-failure = one leaf per failing writer kind over every failure offset; concurrent-writers = one leaf per interleaving of the Write calls of two objects serialized by two goroutines to two gating writers (every interleaving up to 800 / 50000 per pair). Fault-point executions run in a helper process so that fatal errors are observations. " +
 			"Catalogue values carry, besides the shapes, every class of number a codec can round: scales with a full 128-bit mantissa (2^90/q, 1/3, 2^127+1, 2^128-1, results of Scale.Mul/Div and of a ckks Mul+Rescale) alone and inside every object that carries a scale, big.Float constants that are not dyadic at 53/64/128/256 bits, float64 parameters that are neither float32 nor short decimals; equality is exact (big.Float.Cmp, and the re-marshalled bytes). " +
+			"Every exported scalar field of every catalogued struct type takes at least two contents over the values of the type (values derived by reflection where the hand-written ones leave a field constant, e.g. fields no constructor sets); where a type's own Equal ignores an exported scalar field, the field comparison decides. " +
 			"distinct_nontrivial counts distinct (scenario, environment, observed result) classes.",
 		Assumptions: []string{
 			"back-to-back reads from one stream go through ONE shared reader implementing lattigo's buffer.Reader (bufio.Reader or buffer.Buffer); for a plain io.Reader the library documents a read-ahead bufio wrapper, so only the returned count is checked there",
